@@ -126,3 +126,59 @@ PROPS["C12"] = {
         "note": "Trusted: Lean kernel; translator + schema; the tree model of errors.Is / type matching (validated by DIFF against Go on wrapped, joined, typed errors); pure predicates.",
         "technique": "Lean 4 proof (truth table for every registration list) + regenerated-kernel tie + differential correspondence"},
 }
+
+COMPOSE_DIFF = {"slice": "compose", "n_quick": 640, "n_thorough": 6400, "seeds_thorough": 3, "n_search": 3200, "par": 16}
+COMPOSE_RULE = ("compose slice: random stacks (depth 0-5, with repetition) of retry / breaker / bulkhead / rate limiter / fallback / cache / timeout "
+                "(+ an innermost hedge in 1 of 6 cases) built from the real builders with random configurations and handle/abort/cancel "
+                "conditions; 1-5 successive executions per case against the same stateful instances, scripts of 0-8 outcomes (values 0-2, four "
+                "error kinds, blocking-until-cancelled outcomes when something can release them), context cache keys, standalone bulkhead "
+                "permits, clock advances, sync and async entry points; every listener the builders expose is recorded in one ordered log with "
+                "Attempts/Executions sampled at each event; observed: result, error tree, verdict listener, invocations, Attempts/Executions/"
+                "Retries/Hedges, log, breaker state+metrics, free permits, cache contents; non-trivial = more than the three executor events or an error result")
+COMPOSE_ASSUME = ["instant outcomes complete long before any timer (hedge delay 6 ms, timeout 80 ms): schedules of racing timers belong to C07/C09",
+                  "user functions, listeners and predicates do not panic and cooperate with cancellation"]
+COMPOSE_MODELLED = ["hedge is exercised as the innermost policy only (cancelled attempts would otherwise run inner policies concurrently with the caller)",
+                    "rate limiter inside a stack uses max wait 0 (no real waiting) behind the virtual stopwatch"]
+COMPOSE_FACTS = ["executeLoop", "effects/executor:executor.execute", "effects/policyexecutor:BaseExecutor.Apply", "effects/policyexecutor:BaseExecutor.PostExecute"]
+
+PROPS["C10"] = {
+    "props": "Failsafe.Props.C10", "ties": ["Failsafe.Tie.Classify"],
+    "kernels": ["is_failure", "with_done", "with_failure"],
+    "facts": COMPOSE_FACTS + ["effects/fallbackexecutor:executor.Apply"],
+    "required_theorems": ["Failsafe.Props.C10.fallback_spec", "Failsafe.Props.C10.fallback_applied_iff", "Failsafe.Props.C10.fallback_output_reclassified",
+                          "Failsafe.Props.C10.unhandled_passthrough", "Failsafe.Props.C10.no_fallback_output_under_cancel"],
+    "diff": [COMPOSE_DIFF], "rule": COMPOSE_RULE, "assumptions": COMPOSE_ASSUME, "modelled": COMPOSE_MODELLED,
+    "manifest": {
+        "text": "Lean 4 theorems about the fallback layer of the composition model, each for an arbitrary inner layer and run state: the layer's complete behaviour (fallback_spec); applied iff the inner outcome is a failure by the fallback's own conditions and the execution is not cancelled, exactly once (event count); output replaces the result and is re-classified by the same conditions (verdict reset); unhandled results pass through unchanged; no fallback output under cancellation. Tie: FACTS (order of effects in fallback Apply), GEN (IsFailure, flag algebra), DIFF of random policy stacks incl. all fallback kinds against the real library.",
+        "note": "Trusted: Lean kernel; translator/fact extractor; harness canonicalisation. WithFunc fallbacks are represented by WithResult/WithError (the builders reduce to WithFunc). The fallback function's view of LastResult/LastError is checked by DIFF, not stated as a theorem.",
+        "technique": "Lean 4 proof (per-layer theorems over an arbitrary inner layer) + structural facts + differential correspondence"},
+}
+PROPS["C11"] = {
+    "props": "Failsafe.Props.C11", "ties": [],
+    "kernels": [],
+    "facts": COMPOSE_FACTS + ["effects/cacheexecutor:executor.PreExecute", "effects/cacheexecutor:executor.PostExecute", "effects/cacheexecutor:executor.getCacheKey"],
+    "required_theorems": ["Failsafe.Props.C11.cache_hit_skips_inner", "Failsafe.Props.C11.cache_hit_world_unchanged", "Failsafe.Props.C11.cache_miss_spec",
+                          "Failsafe.Props.C11.cache_store_iff", "Failsafe.Props.C11.ctx_key_precedence", "Failsafe.Props.C11.no_key_no_io", "Failsafe.Props.C11.stored_lookup"],
+    "diff": [COMPOSE_DIFF], "rule": COMPOSE_RULE, "assumptions": COMPOSE_ASSUME + ["the Cache implementation supplied by the user is a map (Get returns what Set stored)"],
+    "modelled": COMPOSE_MODELLED,
+    "manifest": {
+        "text": "Lean 4 theorems about the cache layer for an arbitrary inner layer: on a hit the cached value is returned with no error and the result, world, counters and script are independent of the inner layer (it is never entered); on a miss the inner result is returned unchanged and stored iff it carries no error (or satisfies CacheIf) and the effective key is non-empty; a context key takes precedence even when empty; with no key the layer is the inner layer plus the miss event; a stored value is what the next lookup finds. Tie: FACTS (PreExecute/PostExecute/getCacheKey effect order), DIFF of random stacks with caches at any depth, shared instances, context keys equal/different/empty.",
+        "note": "Trusted: Lean kernel; fact extractor; harness; the user's Cache behaves as a map.",
+        "technique": "Lean 4 proof (per-layer theorems over an arbitrary inner layer) + structural facts + differential correspondence"},
+}
+PROPS["C17"] = {
+    "props": "Failsafe.Props.C17", "ties": [],
+    "kernels": [],
+    "facts": COMPOSE_FACTS + ["effects/execution:execution.InitializeRetry", "effects/execution:execution.CopyForHedge", "effects/execution:execution.record",
+                              "effects/execution:execution.RecordResult"],
+    "required_theorems": ["Failsafe.Props.C17.attempts_eq_one_plus_retries_plus_hedges", "Failsafe.Props.C17.applyPolicy_preserves",
+                          "Failsafe.Props.C17.executeStack_preserves", "Failsafe.Props.C17.breaker_rejection_not_an_execution",
+                          "Failsafe.Props.C17.bulkhead_rejection_not_an_execution", "Failsafe.Props.C17.hedge_preserves", "Failsafe.Props.C17.retry_preserves"],
+    "diff": [COMPOSE_DIFF], "rule": COMPOSE_RULE, "assumptions": COMPOSE_ASSUME, "modelled": COMPOSE_MODELLED + [
+        "Executions sampled in listeners is compared only in stacks without a hedge (a cancelled hedge attempt completes asynchronously); its final value after quiescence is always compared",
+        "start times / elapsed times (monotone clock readings) are not modelled"],
+    "manifest": {
+        "text": "Lean 4 theorems: Attempts = 1 + Retries + Hedges is an invariant of every policy layer over an arbitrary inner layer, hence of every execution of every policy list (induction over the list; retry and hedge by induction on their loops); an attempt rejected by an open breaker or a full bulkhead leaves invocations and Executions unchanged. Tie: FACTS (InitializeRetry / CopyForHedge / record bodies), DIFF sampling Attempts/Executions inside every listener and Retries/Hedges/Executions in the done event against the model's value at that point.",
+        "note": "Trusted: Lean kernel; fact extractor; harness. LastResult/LastError visibility and time monotonicity are validated by DIFF/stress only.",
+        "technique": "Lean 4 proof (inductive invariant over layers and policy lists) + structural facts + differential correspondence"},
+}
